@@ -184,6 +184,7 @@ PROPS = {
     'C11': dict(
         tv=dict(module='ScannerTrace', cfg='ScannerTrace.cfg'),
         mc=[dict(module='ScannerMC', cfg={'quick': 'ScannerMC.quick.cfg', 'thorough': 'ScannerMC.thorough.cfg'})],
+        suite=dict(env='VERIF_SCAN_TRACE', drivers={'C13': {'quick': 120000, 'thorough': 1500000}, 'C09': {'quick': 40000, 'thorough': 500000}}),
         gen=[dict(module='ScannerGen', tag='cover', cfg={'quick': 'ScannerGen.cover.quick.cfg', 'thorough': 'ScannerGen.cover.thorough.cfg'}),
              dict(module='ScannerGen', tag='sim', cfg='ScannerGen.sim.cfg', sim={'quick': (300, 43), 'thorough': (5000, 43)})],
         corrupt=[('obs.col+1', _bump('obs.col')), ('obs.pline+1', _bump('obs.pline')), ('ret+1', _bump('ret'))],
